@@ -157,6 +157,19 @@ def replay(t):
             rec, _ = one(p, t["op"], k)
         rec["cfg"] = "cardinality-violated,warnings-as-errors"
         yield rec
+    # the same step on a Property without dtype whose first assignment was refused before (a refused call changes nothing,
+    # so the step has to go as from the untouched Property)
+    if t["pre"]["d"] == "none" and t["op"]["name"] != "ctor":
+        for bad in ([1, "x"], [True, "maybe"], [1.5, "x"]):
+            p = build(t["pre"], k)
+            try:
+                p.values = list(bad)
+                continue                     # accepted (not the situation meant here)
+            except Exception:
+                pass
+            rec, _ = one(p, t["op"], k)
+            rec["cfg"] = "after-a-refused-first-assignment"
+            yield rec
 
 
 # ---- H-binding: random operation sequences on ONE evolving Property ----
